@@ -274,7 +274,9 @@ impl LogStore for FileLogStore {
             inner.file.flush()?;
         }
 
-        self.last_index.store(max_index, Ordering::SeqCst);
+        // A batch may rewrite lower indexes (or arrive out of order): the cached last index is
+        // the maximum over everything stored, not over the last batch.
+        self.last_index.fetch_max(max_index, Ordering::SeqCst);
         Ok(())
     }
 
